@@ -37,6 +37,9 @@ type Plan struct {
 	// OnlyKinds, if non-empty, restricts the fault to calls whose kind is listed; the Call index
 	// then counts only such calls.
 	OnlyKinds []string
+	// UntilCommit disarms the plan once the operation's first Commit has been attempted, so that
+	// a reported error implies a rolled-back transaction.
+	UntilCommit bool
 }
 
 type DB struct {
@@ -46,6 +49,7 @@ type DB struct {
 	plan   *Plan
 	nmatch int
 	Fired  string // site of the fired fault ("" = none)
+	sawCommit bool
 	// Yield, when set, is called before every storage call (scheduling point for the token engine).
 	Yield func(site string)
 }
@@ -58,6 +62,7 @@ func (d *DB) Arm(p *Plan) {
 	d.plan = p
 	d.nmatch = 0
 	d.Fired = ""
+	d.sawCommit = false
 }
 
 func (d *DB) hit(kind, where string) Effect {
@@ -75,6 +80,12 @@ func (d *DB) hit(kind, where string) Effect {
 	p := d.plan
 	if p == nil || p.Effect == NoFault || d.Fired != "" {
 		return NoFault
+	}
+	if p.UntilCommit && d.sawCommit {
+		return NoFault
+	}
+	if kind == "Commit" {
+		d.sawCommit = true
 	}
 	if len(p.OnlyKinds) > 0 {
 		ok := false
